@@ -837,4 +837,39 @@ def lInit (accounts : List Addr) : LState :=
   { client := fun _ => none, licence := fun _ => false, account := fun x => accounts.contains x,
     grants := fun _ _ => false }
 
+/-! ## Nested messages (`authz.MsgExec`)
+
+A transaction's message is a paloma message, or an authz `MsgExec` that carries messages (which may be `MsgExec`
+again).  authz hands an inner message to its handler without looking at any authorisation when the message's declared
+signer is the grantee itself; so whatever the decorator does not check is not checked by anybody.
+
+`anteOkTop` is the decorator since /repo `ce5cc2b3`: it walks into `MsgExec` (`ownershipScope`) and applies `anteOk` to
+every message found.  `anteOkTopOld` is the decorator before: messages without metadata — `MsgExec` among them — were
+skipped, and what they carry with them. -/
+
+inductive Top where
+  | plain (m : Msg)
+  | exec (grantee : Addr) (inner : List Top)
+
+mutual
+/-- `ownershipScope`: the paloma messages a top-level message brings with it, wrappers unfolded -/
+def Top.scope : Top → List Msg
+  | .plain m => [m]
+  | .exec _ inner => scopeList inner
+def scopeList : List Top → List Msg
+  | [] => []
+  | t :: ts => t.scope ++ scopeList ts
+end
+
+def anteOkTop (tops : List Top) (grants : Addr → Addr → Bool) : Bool := anteOkTx (scopeList tops) grants
+
+/-- the decorator before the repair: only the transaction's own paloma messages -/
+def anteOkTopOld (tops : List Top) (grants : Addr → Addr → Bool) : Bool :=
+  tops.all fun t => match t with
+    | .plain m => anteOk m grants
+    | .exec _ _ => true
+
+/-- the messages authz runs on the grantee's word alone: declared signer = grantee (no authorisation record is read) -/
+def execNeedsNoAuthorisation (grantee : Addr) (m : Msg) : Bool := m.signers == [grantee]
+
 end Paloma.Auth
